@@ -1000,7 +1000,11 @@ def hash_seed_run(chk, seed, count, hash_seeds):
 # enabled x is_enabled x run outcome; afterwards the real serialiser.dump_records writes the final map.
 
 EXC = {1: ValueError, 9: RuntimeError, 4: KeyError, 5: TypeError, 2: AssertionError}
-MAIN_KNOWN_CLASS = "falsy_results_dropped"
+# class of the REPAIRED finding FC11a (known_findings.json, status fixed): nothing is suppressed for it any more.  Its
+# witness and variants form the regression corpus (regression_falsy_results, run first on every run), the fn 9 decision
+# table keeps producing the class (accepted FALSY results, module not run) and the specification fn 19 now demands
+# that such results are kept.
+MAIN_REPAIRED_CLASS = "falsy_results_dropped"
 
 
 class Registry:
@@ -1506,29 +1510,71 @@ def real_hmm_cases(chk, rng):
     return out
 
 
-def witness_falsy_dropped():
-    """ FC11a on the real code: accepted TTA results without codons vanish when the module is not enabled """
+# regression corpus of the main level, run first: (label, command line, module in options.all_enabled_modules).
+# The first row is the recorded witness of FC11a; the others vary the way the module ends up not running (absent from
+# all_enabled_modules / listed but is_enabled false) and the threshold (below / equal to the GC content 0.5).
+FALSY_CORPUS = [
+    ("FC11a witness: --tta-threshold 0.3 --minimal, tta not in all_enabled_modules", ["--tta-threshold", "0.3", "--minimal"], False),
+    ("--tta-threshold 0.3 --minimal, tta in all_enabled_modules but is_enabled false", ["--tta-threshold", "0.3", "--minimal"], True),
+    ("--tta-threshold 0.5 (== GC content) --minimal, tta not in all_enabled_modules", ["--tta-threshold", "0.5", "--minimal"], False),
+    ("--tta-threshold 0.3, tta enabled by default but not in all_enabled_modules", ["--tta-threshold", "0.3"], False),
+]
+
+
+def regression_falsy_results(chk):
+    """ regression corpus (repaired finding FC11a, class falsy_results_dropped) on the real code: TTA results
+        without codons (TTAResults.__len__ == 0, a falsy object) that tta.regenerate_previous_results ACCEPTS must
+        be in module_results after main.run_module when the module does not run, save to the same JSON again and
+        go through serialiser.dump_records """
     from antismash import main as amain
+    from antismash.common import serialiser
     from antismash.config import build_config, destroy_config, update_config, get_config
     from antismash.modules import tta
     from antismash.modules.tta.tta import TTAResults
     from antismash.common.secmet.test.helpers import DummyCDS, DummyRecord
     global _TTA_READY
-    record = DummyRecord(seq="ATGC" * 500, features=[DummyCDS(100, 400, locus_tag="cdsA")], record_id="rec")
-    try:
-        destroy_config()
-        build_config(["--tta-threshold", "0.3", "--minimal"], isolated=True, modules=[tta])
-        update_config({"all_enabled_modules": []})
-        saved = through_orjson(TTAResults("rec", record.get_gc_content(), 0.3).to_json())
-        accepted = tta.regenerate_previous_results(through_orjson(saved), record, get_config())
-        module_results = {tta.__name__: saved}
-        amain.run_module(record, tta, get_config(), module_results, {})
-        return accepted is not None and accepted.to_json() == saved and tta.__name__ not in module_results
-    except Exception:  # pylint: disable=broad-except
-        return False
-    finally:
-        destroy_config()
-        _TTA_READY = False
+    for label, argv, in_all in FALSY_CORPUS:
+        chk.count("regression_corpus:" + MAIN_REPAIRED_CLASS)
+        record = DummyRecord(seq="ATGC" * 500, features=[DummyCDS(100, 400, locus_tag="cdsA")], record_id="rec")
+        describe = {"regression_witness_of_repaired_class": MAIN_REPAIRED_CLASS, "case": label,
+                    "record": "DummyRecord(seq='ATGC'*500, one CDS 100..400, id 'rec'), GC content 0.5", "options": argv,
+                    "tta in options.all_enabled_modules": in_all}
+        try:
+            destroy_config()
+            build_config(argv, isolated=True, modules=[tta])
+            update_config({"all_enabled_modules": [tta] if in_all else []})
+            options = get_config()
+            saved = through_orjson(TTAResults("rec", record.get_gc_content(), options.tta_threshold).to_json())
+            describe["saved"] = saved
+            accepted = tta.regenerate_previous_results(through_orjson(saved), record, options)
+            runs = in_all and tta.is_enabled(options)
+            if accepted is None or len(accepted) != 0 or accepted.to_json() != saved or runs:
+                chk.violation("broken-correspondence", "regression corpus: the witness of the repaired finding FC11a no longer "
+                              "describes accepted falsy results of a module that does not run",
+                              dict(describe, theorem_or_correspondence="regression corpus (generator discipline)"))
+                continue
+            module_results = {tta.__name__: through_orjson(saved)}
+            amain.run_module(record, tta, options, module_results, {})
+            kept = module_results.get(tta.__name__)
+            describe["module_results after main.run_module"] = {k: type(v).__name__ for k, v in module_results.items()}
+            if not isinstance(kept, TTAResults) or kept.to_json() != saved:
+                chk.violation("counterexample", f"regression (repaired finding FC11a, class {MAIN_REPAIRED_CLASS}): main.run_module "
+                              "drops accepted results that are falsy (TTAResults without TTA codons) when the module does not run - "
+                              "the re-saved results file loses the module's entry",
+                              dict(describe, theorem_or_correspondence="C11_main_accepted_kept / C11_main_accepted_falsy_kept"))
+                continue
+            dumped = serialiser.dump_records([module_results], [record])
+            if through_orjson(dumped[0]["modules"].get(tta.__name__)) != saved:
+                chk.violation("counterexample", f"regression (repaired finding FC11a, class {MAIN_REPAIRED_CLASS}): the kept falsy "
+                              "results are not written out identically by serialiser.dump_records",
+                              dict(describe, theorem_or_correspondence="C11_main_accepted_kept / C11_main_dump_ok"))
+        except Exception as exc:  # pylint: disable=broad-except
+            chk.violation("counterexample", f"regression (repaired finding FC11a, class {MAIN_REPAIRED_CLASS}): the reusing run dies "
+                          f"with {type(exc).__name__}: {exc}",
+                          dict(describe, theorem_or_correspondence="C11_main_accepted_kept / C11_main_total_under_guard"))
+        finally:
+            destroy_config()
+            _TTA_READY = False
 
 
 def schema_matrix(chk, labels):
@@ -1637,6 +1683,8 @@ def run(chk):
     n = {1: 5000, 2: 1100, 3: 4000, 4: 3500, 5: 3500, 6: 3500, 7: 2500} if quick else \
         {1: 80000, 2: 13000, 3: 55000, 4: 45000, 5: 45000, 6: 45000, 7: 30000}
     cases, impl_outs, meta = [], [], []
+    # regression corpus of the main level first (witness of the repaired finding FC11a and variants, real code)
+    regression_falsy_results(chk)
 
     def guard_check(fn, args, out):
         """ the property's last clause, evaluated on the implementation's answer: results saved for
@@ -1824,8 +1872,9 @@ def run(chk):
                                        {"function": FN_NAME.get(flat[1]), "payload": flat[2:]})
     # the specification of the main level (fn 19) on EVERY fn 9 case, on the implementation's outcome
     spec_cases = [[PROP, 19] + cases[i][2:] + impl_outs[i] for i, _ in main_idx]
-    known = {f["class"]: f for f in common.load_known_findings("C11") if f.get("status") == "known"}
-    known_cases = 0
+    # no recorded finding is left at this level (FC11a is repaired): nothing is suppressed; verdict[2] only says that
+    # the case lies in the class of the repaired finding (accepted falsy results, module not run), counted below
+    repaired_class_cases = 0
     reported = False
     for (i, describe), verdict in zip(main_idx, common.run_driver(spec_cases)):
         if len(verdict) != 3:
@@ -1833,22 +1882,25 @@ def run(chk):
                           {"theorem_or_correspondence": "generator discipline", "flat": cases[i]})
             break
         chk.count("main.run_module:spec_applicable" if verdict[1] else "main.run_module:spec_not_applicable")
+        if verdict[1] and verdict[2] == 1:
+            repaired_class_cases += 1
         if verdict[0] == 1:
-            continue
-        if verdict[2] == 1 and impl_outs[i] == model_outs[i] and MAIN_KNOWN_CLASS in known:
-            known_cases += 1
             continue
         if not reported:
             reported = True
             chk.violation("counterexample", "main.run_module: after the run the module's entry is not (exactly) the regenerated / "
-                          "new results or nothing - saved results are carried along, lost, or the run dies",
+                          "new results or nothing - saved results are carried along, lost, or the run dies"
+                          + (f" (class {MAIN_REPAIRED_CLASS} of the repaired finding FC11a: accepted falsy results of a module "
+                             "that does not run)" if verdict[2] == 1 else ""),
                           {"input": describe, "flat": cases[i], "implementation": impl_outs[i], "model": model_outs[i],
                            "spec_verdict_on_implementation_output": verdict,
                            "theorem_or_correspondence": "C11_main_no_raw_sequence / C11_main_declined_discarded / "
-                                                        "C11_main_accepted_kept_partial"})
-    chk.extra["main_level_known_finding_cases"] = known_cases
-    if known_cases and witness_falsy_dropped():
-        chk.known(f"{known[MAIN_KNOWN_CLASS]['id']} class={MAIN_KNOWN_CLASS}: {known[MAIN_KNOWN_CLASS]['what_fails']}")
+                                                        "C11_main_accepted_kept"})
+    chk.extra["main_level_repaired_class_cases"] = repaired_class_cases
+    chk.count("main.run_module:class_" + MAIN_REPAIRED_CLASS + "_spec_evaluated", repaired_class_cases)
+    if not repaired_class_cases:
+        chk.violation("broken-correspondence", f"no generated main-level case lies in the class {MAIN_REPAIRED_CLASS} of the repaired "
+                      "finding FC11a", {"theorem_or_correspondence": "generator discipline"})
     unmodelled = sum(1 for m in model_outs if m[:2] == [1, 98] or m == [-999])
     chk.extra["outside_modelled_domain"] = unmodelled
     if unmodelled:
